@@ -29,7 +29,7 @@ _CBR = {
     "findIndex": "A1.findIndex(function(x){ return %s })",
     "some": "A1.some(function(x){ return %s })",
     "every": "A1.every(function(x){ return %s })",
-    "sort": "A2.slice().sort(function(a,b){ return %s })",
+    "sort": "A2.slice().sort(function(a,b){ var q = %s; return 0; })",
 }
 
 # how the recursive call sits in its expression (pending operands)
@@ -343,3 +343,251 @@ def stats(case, res):
 
 def sample_view(case):
     return {k: case[k] for k in ("index", "M", "T_work", "cell", "src")}
+
+
+# =====================================================================================
+# Part B -- nothing accumulates: terminating bodies (the C07 statement grammar, with throws
+# injected by the fault schedule and caught), repeated N times inside one activation.
+# =====================================================================================
+import c07 as _c07
+
+B_HEADROOM = 400      # bytes of slack on top of the smallest limit under which one iteration runs
+B_GRAN = 50
+
+
+def _strip_ret(stmts):
+    out = []
+    for s in stmts:
+        t = s["t"]
+        if t == "ret":
+            continue
+        s = dict(s)
+        if t == "try":
+            s["b"] = _strip_ret(s["b"])
+            s["c"] = _strip_ret(s["c"]) if s["c"] is not None else None
+            s["f"] = _strip_ret(s["f"]) if s["f"] is not None else None
+        elif t in ("loop", "lblock"):
+            s["b"] = _strip_ret(s["b"])
+        elif t == "switch":
+            s["cases"] = [dict(c, b=_strip_ret(c["b"])) for c in s["cases"]]
+        out.append(s)
+    return out
+
+
+def render_b(prog, mode):
+    parts = [_c07.PRELUDE]
+    funcs = prog["funcs"]
+    for f in funcs[1:]:
+        parts.append("function f%d() {\n%s\n}" % (f["id"], _c07.r_block(f["b"], "  ")))
+    if mode == "call":
+        parts.append("function f0() {\n%s\n}" % _c07.r_block(funcs[0]["b"], "  "))
+        body = "      f0();"
+    else:
+        body = _c07.r_block(_strip_ret(funcs[0]["b"]), "      ")
+    parts.append("function run(N) {\n  for (var it=0; it<N; it++) {\n    mark(it);\n    try {\n%s\n    } catch (eb) { pc(0, desc(eb)); }\n  }\n}\nrun(NN);\n\"done\";" % body)
+    return "\n".join(parts)
+
+
+def gen_case_b(seed, i, tier):
+    rng = substream(seed, "c02b", i)
+    profile = rng.choice(("full", "nonative", "core", "core_native", "full"))
+    prog = _c07.gen_program(rng, profile)
+    D = _c07.model(prog, [])["decisions"]
+    r = rng.random()
+    if D == 0 or r < 0.25:
+        fs = []
+    elif r < 0.8:
+        fs = [rng.randrange(D)]
+    else:
+        j = rng.randrange(D)
+        fs = [j, j + rng.randrange(1, 5)]
+    mode = rng.choice(("call", "inline"))
+    nbig = 200 if tier == "quick" else rng.choice((200, 1000, 10000))
+    cell = {"stratum": "B", "mode": mode, "nbig": nbig}
+    return {"property": PROPERTY, "seed": seed, "index": i, "cell": cell, "prog": prog, "faults": fs,
+            "world": {"tick": 1e-5, "epoch": 1000.0}, "M": None, "T_work": None, "src": render_b(prog, mode)}
+
+
+def _run_b(src, fs, N, M, cap, sample=False):
+    from microjs import Context
+    W.reset()
+    S = W.S
+    ctx = Context(memory_limit=M)
+    st = {"n": 0}
+    faults = set(fs)
+    samples = []
+    lost = [False]
+
+    def mark(*a):
+        st["n"] = 0
+        if sample:
+            vm = getattr(ctx, "_current_vm", None)
+            tri = []
+            for attr in ("stack", "call_stack", "exception_handlers"):
+                v = getattr(vm, attr, None) if vm is not None else None
+                if v is None:
+                    lost[0] = True
+                    tri.append(None)
+                else:
+                    tri.append(len(v))
+            samples.append(tri)
+
+    def d(*a):
+        j = st["n"]
+        st["n"] += 1
+        return j in faults
+
+    nop = lambda *a: None
+    for name, fn in (("p", nop), ("pv", nop), ("pc", nop), ("pf", nop), ("d", d), ("mark", mark)):
+        ctx.set(name, fn)
+    ctx.set("NN", N)
+    out = run_eval(ctx, src, cap)
+    return out, samples, lost[0]
+
+
+def execute_b(case):
+    W.install()
+    src = render_b(case["prog"], case["cell"]["mode"])
+    fs = case["faults"]
+    v = []
+    res = {"outcome": None, "work": 0, "elapsed": 0.0, "landing": "", "n_probes": 0, "real_peak": None}
+    # 1. residue, monitored while the run proceeds
+    out, samples, lost = _run_b(src, fs, 4, None, 5_000_000, sample=True)
+    work1 = max(1, (out["end_work"] - out["start_work"]) // 4)
+    res["outcome"] = out["kind"]
+    res["cls"], res["msg"], res["value"] = out.get("cls"), out.get("msg"), out.get("value")
+    res["work"] = out["end_work"] - out["start_work"]
+    if not (out["kind"] == "value" and out.get("value") == "done"):
+        v.append({"clause": "precondition", "detail": "body does not terminate normally without a limit: %s %s %s" % (
+            out["kind"], out.get("cls"), out.get("msg"))})
+        res.update(violations=v, digest=W.digest(), residue=None, M1=None, probe_lost=lost)
+        return res
+    res["probe_lost"] = lost
+    res["residue"] = samples
+    if not lost and len(samples) >= 2:
+        for a, b in zip(samples, samples[1:]):
+            if a != b:
+                v.append({"clause": "C02.B.residue", "detail": "(operands, frames, handlers) at the loop head: %s then %s in the next iteration" % (a, b)})
+                break
+    # 2. smallest limit under which one iteration succeeds (black box: no attribute names)
+    cap1 = work1 * 6 + 200_000
+    lo, hi = 0, 1 << 20
+
+    def ok(M, N, cap):
+        o, _, _ = _run_b(src, fs, N, M, cap)
+        return o
+    o = ok(hi, 1, cap1)
+    if not (o["kind"] == "value"):
+        v.append({"clause": "precondition", "detail": "one iteration does not run under 1 MiB: %s" % o["kind"]})
+        res.update(violations=v, digest=W.digest(), M1=None)
+        return res
+    while hi - lo > B_GRAN:
+        mid = (lo + hi) // 2
+        if mid == 0:
+            break
+        o = ok(mid, 1, cap1)
+        if o["kind"] == "value":
+            hi = mid
+        else:
+            lo = mid
+    M1 = hi
+    res["M1"] = M1
+    # 3. N iterations under the same limit
+    nbig = case["cell"]["nbig"]
+    o = ok(M1 + B_HEADROOM, nbig, work1 * nbig * 3 + 500_000)
+    res["big_outcome"] = o["kind"]
+    res["work"] += o["end_work"] - o["start_work"]
+    if o["kind"] == "limit_mem":
+        v.append({"clause": "C02.B.limit", "detail": "one iteration runs under memory_limit=%d but %d iterations hit MemoryLimitError under %d" % (
+            M1, nbig, M1 + B_HEADROOM)})
+    elif o["kind"] != "value":
+        v.append({"clause": "precondition", "detail": "%d iterations ended in %s %s %s" % (nbig, o["kind"], o.get("cls"), o.get("msg"))})
+    res.update(violations=v, digest=sha1([samples, M1, o["kind"]]))
+    return res
+
+
+_gen_case_a = gen_case
+_execute_a = execute
+_features_a = features
+_shrink_a = shrink_candidates
+_nontrivial_a = nontrivial_key
+_stats_a = stats
+_sample_view_a = sample_view
+
+
+def gen_case(seed, i, tier="quick"):
+    if i % 10 in (3, 6, 9):      # 30% of the cases are Part B
+        return gen_case_b(seed, i, tier)
+    return _gen_case_a(seed, i, tier)
+
+
+def execute(case):
+    if case["cell"]["stratum"] == "B":
+        return execute_b(case)
+    return _execute_a(case)
+
+
+def features(case, res=None):
+    if case["cell"]["stratum"] == "B":
+        c = {"prog": case["prog"], "schedules": [case["faults"]]}
+        return sorted(set(["stratum:B", "mode:" + case["cell"]["mode"]] + _c07.features(c)))
+    return _features_a(case, res)
+
+
+def normalise(case):
+    if case["cell"]["stratum"] == "B":
+        return {"prog": json.dumps(case["prog"]["funcs"], sort_keys=True), "faults": case["faults"], "mode": case["cell"]["mode"]}
+    return {"features": _features_a(case)}
+
+
+def shrink_candidates(case):
+    if case["cell"]["stratum"] != "B":
+        for c in _shrink_a(case):
+            yield c
+        return
+    if case["cell"]["nbig"] > 200:
+        c = json.loads(json.dumps(case))
+        c["cell"]["nbig"] = 200
+        yield c
+    if case["cell"]["mode"] == "inline":
+        c = json.loads(json.dumps(case))
+        c["cell"]["mode"] = "call"
+        c["src"] = render_b(c["prog"], "call")
+        yield c
+    proxy = {"prog": case["prog"], "schedules": [case["faults"]], "src": ""}
+    for cand in _c07.shrink_candidates(proxy):
+        c = json.loads(json.dumps(case))
+        c["prog"] = cand["prog"]
+        c["faults"] = cand["schedules"][0]
+        c["src"] = render_b(c["prog"], c["cell"]["mode"])
+        yield c
+
+
+def nontrivial_key(case, res):
+    if case["cell"]["stratum"] == "B":
+        if res.get("M1") is None:
+            return None
+        return "B|" + sha1([case["prog"]["funcs"], case["faults"], case["cell"]["mode"]])[:16]
+    return _nontrivial_a(case, res)
+
+
+def stats(case, res):
+    if case["cell"]["stratum"] == "B":
+        return {"outcome": "B:" + str(res.get("big_outcome") or res.get("outcome")), "b_mode": case["cell"]["mode"],
+                "b_faults": str(len(case["faults"])), "b_iterations": case["cell"]["nbig"],
+                "b_residue_probe_lost": 1 if res.get("probe_lost") else 0,
+                "faults_fired": ["throw_caught"] * (1 if case["faults"] else 0) + (["mem_budget_bisected"] if res.get("M1") else []),
+                "precondition_failed": 1 if any(x["clause"] == "precondition" for x in res.get("violations", [])) else 0}
+    return _stats_a(case, res)
+
+
+def sample_view(case):
+    if case["cell"]["stratum"] == "B":
+        return {"index": case["index"], "cell": case["cell"], "faults": case["faults"], "src": case["src"]}
+    return _sample_view_a(case)
+
+
+RULE += (" Part B (30%% of the cases): a seeded program of the C07 statement grammar with a seeded throw schedule, its body run N times "
+         "in one activation (called or inlined); the (operand, frame, handler) depths at the loop head are sampled while it runs, the "
+         "smallest memory_limit under which one iteration succeeds is found by bisection and N iterations must succeed under it "
+         "(+%d bytes).  Distinct = distinct (program, schedule, mode)." % B_HEADROOM)
